@@ -90,6 +90,37 @@ def workloadEntries : List (String × List String) := [
      "graph.Undirected.DOT", "graph.Directed.DOT", "graph.Directed.Reverse", "graph.Undirected.ConnectedComponents",
      "graph.Directed.StronglyConnectedComponents", "graph.Directed.Topological", "heap.binomial.DOT",
      "heap.fibonacci.DOT", "automata.NFA.DOT", "automata.DFA.DOT"]),
+  ("parse-predictive",
+    ["grammar.NewCFG", "parser/predictive.New", "parser/predictive.predictiveParser.Parse",
+     "parser/predictive.predictiveParser.ParseAndBuildAST", "parser.Traverse", "parser.InternalNode.String",
+     "parser.InternalNode.Equal", "lexer.Token.String", "lexer.Position.String"]),
+  ("parse-slr", ["parser/lr/simple.New", "grammar.NewCFG", "parser/lr.Parser.Parse", "parser/lr.Parser.ParseAndBuildAST", "parser/lr.Parser.ParseAndEvaluate", "parser.Traverse", "parser.InternalNode.String", "parser.InternalNode.Equal", "lexer.Token.String", "lexer.Position.String"]),
+  ("parse-lalr", ["parser/lr/lookahead.New", "grammar.NewCFG", "parser/lr.Parser.Parse", "parser/lr.Parser.ParseAndBuildAST", "parser/lr.Parser.ParseAndEvaluate", "parser.Traverse", "parser.InternalNode.String", "parser.InternalNode.Equal", "lexer.Token.String", "lexer.Position.String"]),
+  ("parse-lr1", ["parser/lr/canonical.New", "grammar.NewCFG", "parser/lr.Parser.Parse", "parser/lr.Parser.ParseAndBuildAST", "parser/lr.Parser.ParseAndEvaluate", "parser.Traverse", "parser.InternalNode.String", "parser.InternalNode.Equal", "lexer.Token.String", "lexer.Position.String"]),
+  ("combinator",
+    ["parser/combinator.ExpectRuneInRange", "parser/combinator.ExpectRune", "parser/combinator.ExpectString",
+     "parser/combinator.ExpectRunes", "parser/combinator.ExpectRuneIn", "parser/combinator.Parser.REP1",
+     "parser/combinator.Parser.REP", "parser/combinator.Parser.Flatten", "parser/combinator.Parser.CONCAT",
+     "parser/combinator.Parser.ALT", "parser/combinator.Parser.OPT"]),
+  ("automata-combine",
+    ["automata.NewNFA", "automata.NFA.Add", "automata.NFA.Concat", "automata.NFA.Union", "automata.NFA.Star",
+     "automata.NFA.Isomorphic", "automata.DFA.Isomorphic", "automata.CombineDFA", "automata.NFA.ToDFA",
+     "automata.DFA.Minimize", "automata.DFA.ReindexStates", "automata.DFA.Transitions", "automata.NFA.Transitions",
+     "automata.DFA.String", "automata.NFA.String", "automata.NFA.Accept", "automata.DFA.Accept"]),
+  ("grammar-normalize",
+    ["grammar.NewCFG", "grammar.CFG.EliminateLeftRecursion", "grammar.CFG.LeftFactor", "grammar.CFG.ChomskyNormalForm",
+     "grammar.CFG.IsCNF", "grammar.CFG.EliminateCycles", "grammar.CFG.AddNewNonTerminal", "grammar.CFG.IsLL1",
+     "grammar.CFG.Verify", "grammar.CFG.Clone", "grammar.LongestCommonPrefixOf"]),
+  ("func-values",
+    ["grammar.HashSymbol", "grammar.HashTerminal", "grammar.HashNonTerminal", "grammar.HashString",
+     "grammar.HashProduction", "grammar.EqSymbol", "grammar.EqTerminal", "grammar.EqNonTerminal", "grammar.EqString",
+     "grammar.EqProduction", "grammar.EqProductionSet", "grammar.EqTerminalsAndEmpty", "grammar.EqTerminalsAndEndmarker",
+     "grammar.CmpSymbol", "grammar.CmpTerminal", "grammar.CmpNonTerminal", "grammar.CmpString", "grammar.CmpProduction",
+     "automata.HashState", "automata.HashSymbol", "automata.EqState", "automata.EqSymbol", "automata.CmpState",
+     "automata.CmpSymbol", "parser/lr.HashState", "parser/lr.EqState", "parser/lr.CmpState", "parser/lr.EqItem",
+     "parser/lr.EqItemSet", "parser/lr.CmpItem", "parser/lr.CmpItemSet", "parser.EqNode", "errors.DefaultErrorFormat",
+     "errors.BulletErrorFormat", "symboltable.NewQuadraticHashTable", "symboltable.NewDoubleHashTable",
+     "symboltable.NewLinearHashTable", "symboltable.NewChainHashTable", "set.New", "parser/lr.NewItemSet"]),
   ("structures",
     ["sort.Quick", "sort.Quick3Way", "sort.Merge", "sort.Heap", "sort.Shell", "sort.Insertion", "sort.Select",
      "radixsort.LSDInt", "radixsort.MSDInt", "radixsort.Quick3WayString", "radixsort.MSDString",
@@ -102,7 +133,8 @@ def workloadEntries : List (String × List String) := [
 def mixedWorkloads : List String :=
   ["hashtable-iterate", "lr-slr", "set-iterate", "automata-determinize", "first-follow", "lr-lalr",
    "grammar-transform", "ll1-table", "lr-canonical", "structures", "hash-api", "ordered-tables", "tries", "heaps",
-   "lexer-input", "graphs-dot"]
+   "lexer-input", "graphs-dot", "parse-predictive", "parse-slr", "parse-lalr", "parse-lr1", "combinator",
+   "automata-combine", "grammar-normalize", "func-values"]
 
 def entriesOf (w : String) : Option (List String) :=
   if w = "mixed" then
